@@ -74,6 +74,8 @@ def verify_one(cid, timeout_ms=10000):
         ct = C.CONTRACTS[cid]
         if ct.func == "<error-table>":
             return verify_table(eng, ct, t0)
+        if ct.func == "<regex-data>":
+            return verify_regex(eng, ct, t0)
         res = eng.verify(ct)
         obs = []
         for ob in res["obligations"]:
@@ -123,6 +125,45 @@ def verify_table(eng, ct, t0):
     sha = hashlib.sha256(json.dumps([CODE, SEV], sort_keys=True).encode()).hexdigest()[:16]
     return {"cid": ct.cid, "ok": True, "obligations": obs, "paths": 1, "dead": 0, "symex_s": 0.0,
             "wall_s": round(time.time() - t0, 3), "sha": sha, "assumptions": [], "bounded": [], "calls": {}}
+
+
+def verify_regex(eng, ct, t0):
+    """data obligation: the language of a pattern stored in a JSON file of the repository (read on every run) equals the language of the
+    grammar the contract states - decided by z3's regular-expression theory; a counterexample is a text on which the two differ and is
+    replayed with python's own `re` on the pattern as read from the file"""
+    import hashlib, re as _re
+    from .regexlang import equivalent
+    from .vals import Unsupported
+    path = os.path.join(os.environ.get("HED_REPO", "/repo"), ct.file)
+    raw = open(path, encoding="utf-8").read()
+    node = json.loads(raw)
+    for k in ct.ghost["json_path"]:
+        node = node[k]
+    pattern = node
+    obs = []
+    for lbl, spec in ct.ensures.items():
+        t1 = time.time()
+        model, detail = None, ""
+        try:
+            verdict, text = equivalent(pattern, spec)
+            if verdict == "sat":
+                text = _re.sub(r"\\u\{([0-9a-fA-F]+)\}", lambda m: chr(int(m.group(1), 16)), text)
+                in_file, in_spec = _re.match(pattern, text) is not None, _re.match(spec, text) is not None
+                model = {"text": text, "pattern_in_file": pattern, "file_pattern_accepts": in_file, "stated_grammar_accepts": in_spec,
+                         "replayed": in_file != in_spec}
+                detail = f"re.match differs on {text!r}: file pattern {in_file}, stated grammar {in_spec}"
+            elif verdict == "unknown":
+                detail = str(text)
+        except Unsupported as u:
+            verdict, detail = "undecided", str(u)
+        obs.append({"id": f"{ct.cid}:ensures:{lbl}", "kind": "ensures", "label": lbl, "path": "-", "verdict": verdict,
+                    "backend": "z3-regex", "ms": int((time.time() - t1) * 1000), "top": True, "detail": detail,
+                    "info": {"clause": f"L({'.'.join(ct.ghost['json_path'])} in {ct.file}) == L({spec})"}, "model": model})
+    sha = hashlib.sha256(pattern.encode()).hexdigest()[:16]
+    return {"cid": ct.cid, "ok": True, "obligations": obs, "paths": 1, "dead": 0, "symex_s": 0.0,
+            "wall_s": round(time.time() - t0, 3), "sha": sha,
+            "assumptions": ["python's re and z3's regular expressions agree on the supported constructs; categories (\\d ...) follow the "
+                            "running python's unicodedata on both sides of the equivalence"], "bounded": [], "calls": {}}
 
 
 def _resource_verdict(cid, why, wall):
